@@ -102,6 +102,9 @@ class MasterTruth:
         self.admin_down = set()   # servers an admin 'down' event put down
         #                           (and no later event / presence change
         #                           brought back)
+        self.looked_present = set()   # servers whose presence node existed
+        #                           when the master last handled a presence
+        #                           snapshot (and nothing else was said since)
         self.told_gone = set()    # servers the master was told are gone (a
         #                           handled snapshot without them) and has
         #                           not been told anything else about since
@@ -564,6 +567,7 @@ class World(masterloop.LoopWorld):
         truth.view = set(zk.children(z.SERVER_PRESENCE) or [])
         truth.absent = {}
         truth.told_gone = set()
+        truth.looked_present = set()
         truth.seen_gone = set()
         truth.blacklist = list(self._zk_obj(z.BLACKEDOUT_APPS) or [])
         truth.admin_down = set()
@@ -625,6 +629,19 @@ class World(masterloop.LoopWorld):
                     truth.seen_gone.discard(name)
             for name in children:
                 truth.admin_down.discard(name)
+            for name in sorted(truth.srv):
+                here = self.zk.nodes.get(
+                    z.path.server_presence(name)) is not None
+                if name in self.intruded or name not in self.held_servers:
+                    truth.looked_present.discard(name)
+                elif here and (name in children or
+                               name in truth.looked_present):
+                    # listed and there when the master looked (a server
+                    # held as down is reloaded and found present), or held
+                    # as present before and found present again
+                    truth.looked_present.add(name)
+                else:
+                    truth.looked_present.discard(name)
             now = self.clock.peek()
             for name in sorted(truth.srv):
                 if name in children or self.zk.nodes.get(
@@ -688,6 +705,7 @@ class World(masterloop.LoopWorld):
                             self.held_servers.discard(name)
                         truth.absent.pop(name, None)
                         truth.told_gone.discard(name)
+                        truth.looked_present.discard(name)
                         truth.seen_gone.discard(name)
                         parent = (self._zk_obj(z.path.server(name)) or
                                   {}).get('parent')
@@ -700,6 +718,7 @@ class World(masterloop.LoopWorld):
                 elif resource in ('cell', 'buckets'):
                     truth.absent.clear()
                     truth.told_gone.clear()
+                    truth.looked_present.clear()
                     truth.seen_gone.clear()
                     if resource == 'buckets':
                         self.told_buckets = set(
@@ -714,6 +733,7 @@ class World(masterloop.LoopWorld):
                         truth.down.pop(name, None)
                         truth.absent.pop(name, None)
                         truth.told_gone.discard(name)
+                        truth.looked_present.discard(name)
                         truth.seen_gone.discard(name)
                         if name not in truth.srv:
                             continue
@@ -2934,6 +2954,24 @@ class Generator:
                                 {'op': 'master_cycle'}])
         return {'op': 'bucket_reparent', 'name': rack, 'parent': target}
 
+    def g_stale_absence_snapshot(self, world):
+        """A server that holds instances loses its presence node and
+        registers again before the master gets to the snapshot that does not
+        list it; a cycle runs before the next snapshot is handled."""
+        cands = [n for n in self._servers(world)
+                 if world.zk.children(z.path.placement(n)) and
+                 world.zk.nodes.get(z.path.server_presence(n))]
+        if not cands:
+            return None
+        name = self.rng.choice(cands)
+        self.follow.extend([
+            {'op': 'presence_down', 'name': name},
+            {'op': 'snap', 'path': z.SERVER_PRESENCE},
+            {'op': 'presence_up', 'name': name},
+            {'op': 'process'}, {'op': 'master_cycle'},
+            {'op': 'drain'}, {'op': 'master_cycle'}])
+        return {'op': 'drain'}
+
     def g_stale_presence_snapshot(self, world):
         """A server the master holds as down registers again, the watch
         fires, and the server is gone again before the master gets to the
@@ -3471,7 +3509,7 @@ OP_WEIGHTS = [
     ('identity_shrink_regrow', 3), ('drop_group_members', 0),
     ('late_event', 3), ('blackout_then_failover', 3),
     ('trait_gained_then_probe', 0), ('reload_vanish', 3),
-    ('rack_reparent', 3),
+    ('rack_reparent', 3), ('stale_absence_snapshot', 3),
 ]
 
 
